@@ -6,7 +6,7 @@ use nom::{
     branch::alt,
     bytes::complete::{tag, take_until},
     character::complete::{self, digit0, digit1},
-    combinator::{fail, map, opt, recognize},
+    combinator::{fail, map, map_res, opt, recognize},
     error::ErrorKind,
     multi::{many0, many1, separated_list0},
     sequence::tuple,
@@ -841,7 +841,7 @@ fn parse_nth_child_args(text: &str) -> IResult<&str, SelectorComponent> {
         map(tag("even"), |_| (2, 0)),
         map(tag("odd"), |_| (2, 1)),
         // The case where both a and b are specified
-        map(
+        map_res(
             tuple((
                 opt_sign,
                 opt(digit1),
@@ -850,27 +850,28 @@ fn parse_nth_child_args(text: &str) -> IResult<&str, SelectorComponent> {
                 sign,
                 digit1,
             )),
-            |(a_sign, a_opt_val, _, _, b_sign, b_val)| {
-                let a =
-                    <i32 as FromStr>::from_str(a_opt_val.unwrap_or("1")).unwrap() * a_sign.val();
-                let b = <i32 as FromStr>::from_str(b_val).unwrap() * b_sign.val();
-                (a, b)
+            |(a_sign, a_opt_val, _, _, b_sign, b_val)| -> Result<(i32, i32), std::num::ParseIntError> {
+                let a = <i32 as FromStr>::from_str(a_opt_val.unwrap_or("1"))? * a_sign.val();
+                let b = <i32 as FromStr>::from_str(b_val)? * b_sign.val();
+                Ok((a, b))
             },
         ),
         // Just a
-        map(
+        map_res(
             tuple((opt_sign, opt(digit1), tag("n"))),
-            |(a_sign, a_opt_val, _)| {
-                let a =
-                    <i32 as FromStr>::from_str(a_opt_val.unwrap_or("1")).unwrap() * a_sign.val();
-                (a, 0)
+            |(a_sign, a_opt_val, _)| -> Result<(i32, i32), std::num::ParseIntError> {
+                let a = <i32 as FromStr>::from_str(a_opt_val.unwrap_or("1"))? * a_sign.val();
+                Ok((a, 0))
             },
         ),
         // Just b
-        map(tuple((opt_sign, digit1)), |(b_sign, b_val)| {
-            let b = <i32 as FromStr>::from_str(b_val).unwrap() * b_sign.val();
-            (0, b)
-        }),
+        map_res(
+            tuple((opt_sign, digit1)),
+            |(b_sign, b_val)| -> Result<(i32, i32), std::num::ParseIntError> {
+                let b = <i32 as FromStr>::from_str(b_val)? * b_sign.val();
+                Ok((0, b))
+            },
+        ),
     ))(rest)?;
 
     let (rest, _) = tuple((skip_optional_whitespace, tag(")")))(rest)?;
